@@ -78,6 +78,7 @@ class Ctx:
         self.assumptions = []
         self.vacuous = []
         self.nontrivial = set()
+        self.tags = {}
 
     # ---------------------------------------------------------------- model checking
     def mc(self, module, cfg, workers=16, expect_violation=None, timeout=3000, coverage=False, **kw):
@@ -132,6 +133,9 @@ class Ctx:
             for p in r.printed:
                 if p and p[0] == "V":
                     bad.setdefault(p[1], []).append(str(p[2]))
+                elif p and len(p) >= 3 and isinstance(p[0], str) and len(p[0]) == 1:
+                    # other one-letter tags are observations the trace specification reports (e.g. the class of a record)
+                    self.tags.setdefault(p[0], {}).setdefault(p[1], []).append(p[2])
             return bad, r
 
         bad = {}
